@@ -549,3 +549,136 @@ Proof.
   - unfold NR.create_rectangles. rewrite Es. reflexivity.
 Qed.
 End NetlistOps.
+
+(* ------------------------------------------------------------------ *)
+(* the diagram store: what was encoded before does not change the      *)
+(* meaning of what is encoded now (from C07's post_exact)              *)
+(* ------------------------------------------------------------------ *)
+From FrameModel Require Import PB.Expr PB.Cnf PB.Amo PB.Robdd PB.Codify PB.Sat PB.SatFacts.
+
+Lemma run_post_status m1 s1 m2 s2 p m1' s1' st1 m2' s2' st2 :
+  run_post m1 s1 p = Some (m1', s1', st1) -> run_post m2 s2 p = Some (m2', s2', st2) -> st1 = st2.
+Proof.
+  destruct p as [v|c|l x|l|k l|i d]; cbn [run_post]; intros H1 H2;
+    try (inversion H1; inversion H2; reflexivity).
+  - destruct (k <? 3)%Z; [inversion H1; inversion H2; reflexivity|].
+    destruct (heule _ _ (auxcount s1) _) as [[? ?]|]; [|discriminate].
+    destruct (heule _ _ (auxcount s2) _) as [[? ?]|]; [|discriminate].
+    inversion H1; inversion H2; reflexivity.
+  - unfold pseudobool in *. destruct (isclause i); try (inversion H1; inversion H2; reflexivity).
+    destruct (is_ge (iop i)); [|inversion H1; inversion H2; reflexivity].
+    destruct (getrobdd d i m1) as [[r1 x1]|]; [|discriminate].
+    destruct (getrobdd d i m2) as [[r2 x2]|]; [|discriminate].
+    destruct (codify _ x1 r1 s1); [|discriminate]. destruct (codify _ x2 r2 s2); [|discriminate].
+    inversion H1; inversion H2; reflexivity.
+Qed.
+Lemma run_posts_status : forall ps m1 s1 m2 s2 m1' s1' sts1 m2' s2' sts2,
+  run_posts m1 s1 ps = Some (m1', s1', sts1) -> run_posts m2 s2 ps = Some (m2', s2', sts2) -> sts1 = sts2.
+Proof.
+  induction ps as [|p r IH]; cbn [run_posts]; intros m1 s1 m2 s2 m1' s1' sts1 m2' s2' sts2 H1 H2.
+  - inversion H1; inversion H2; reflexivity.
+  - destruct (run_post m1 s1 p) as [[[x1 y1] z1]|] eqn:E1; [|discriminate].
+    destruct (run_post m2 s2 p) as [[[x2 y2] z2]|] eqn:E2; [|discriminate].
+    destruct (run_posts x1 y1 r) as [[[u1 v1] w1]|] eqn:F1; [|discriminate].
+    destruct (run_posts x2 y2 r) as [[[u2 v2] w2]|] eqn:F2; [|discriminate].
+    inversion H1; inversion H2; subst. f_equal.
+    + exact (run_post_status _ _ _ _ _ _ _ _ _ _ _ E1 E2).
+    + exact (IH _ _ _ _ _ _ _ _ _ _ F1 F2).
+Qed.
+
+Theorem memory_independent : forall (m1 m2 : memory) ps, mem_wf m1 -> mem_wf m2 -> Forall post_ok ps ->
+  exists m1' s1 m2' s2 sts,
+    run_posts m1 empty_mgr ps = Some (m1', s1, sts) /\ run_posts m2 empty_mgr ps = Some (m2', s2, sts) /\
+    mem_wf m1' /\ mem_wf m2' /\
+    (forall a, ext a (clauses s1) <-> ext a (clauses s2)) /\
+    (forall a, ext a (clauses s1) <-> accepted_hold a ps sts).
+Proof.
+  intros m1 m2 ps W1 W2 Ok.
+  destruct (post_exact m1 ps W1 Ok) as (x1 & s1 & sts1 & E1 & _ & X1).
+  destruct (post_exact m2 ps W2 Ok) as (x2 & s2 & sts2 & E2 & _ & X2).
+  destruct (run_posts_spec ps m1 empty_mgr (inv_empty m1 W1) Ok) as (y1 & t1 & u1 & F1 & I1 & _).
+  destruct (run_posts_spec ps m2 empty_mgr (inv_empty m2 W2) Ok) as (y2 & t2 & u2 & F2 & I2 & _).
+  rewrite E1 in F1. rewrite E2 in F2.
+  injection F1 as -> -> ->. injection F2 as -> -> ->.
+  pose proof (run_posts_status _ _ _ _ _ _ _ _ _ _ _ E1 E2) as Es.
+  exists y1, t1, y2, t2, u1. split; [exact E1|]. split; [rewrite Es; exact E2|].
+  split; [exact (inv_wf _ _ I1)|]. split; [exact (inv_wf _ _ I2)|]. split; [|exact X1].
+  rewrite <- Es in X2.
+  intro a. rewrite X1, X2. tauto.
+Qed.
+
+(* ------------------------------------------------------------------ *)
+(* a run of allocation operations                                      *)
+(* ------------------------------------------------------------------ *)
+Open Scope Qc_scope.
+(* robustness of one operation on the cells it is applied to, and along a run (evaluated at the lower end of
+   the band: by the theorems above the run is the same under every tolerance of the band) *)
+Definition op_robust (lo hi alo ahi q : Qc) (o : AL.op) (cs : list AL.cell) : bool :=
+  match o with
+  | AL.OpRefine t l =>
+      match AL.refine_cells t l cs with Some new => robust_pairs alo ahi (map AL.crect new) | None => true end
+  | AL.OpUniform =>
+      match AL.uniform_cells cs with Some new => robust_pairs alo ahi (map AL.crect new) | None => true end
+  | AL.OpGriddify =>
+      robust_bounds lo hi (map AL.crect cs) &&
+      match AL.griddify_cells lo q cs with Some new => robust_pairs alo ahi (map AL.crect new) | None => true end
+  end.
+Fixpoint steps_robust (lo hi alo ahi q : Qc) (ops : list AL.op) (cs : list AL.cell) : bool :=
+  match ops with
+  | [] => true
+  | o :: r => op_robust lo hi alo ahi q o cs &&
+              match AL.run_op lo alo q o cs with
+              | Some cs' => steps_robust lo hi alo ahi q r cs'
+              | None => true
+              end
+  end.
+Definition robust_alloc (lo hi alo ahi q : Qc) (ops : list AL.op) (cells : list AL.cell) : bool :=
+  robust_pairs alo ahi (map AL.crect cells) &&
+  match AL.mk_allocation alo cells with
+  | Some cs => steps_robust lo hi alo ahi q ops cs
+  | None => true
+  end.
+
+Section AllocRun.
+Variables lo hi alo ahi : Qc.
+Hypothesis Lh : lo <= hi.
+Hypothesis Ah : alo <= ahi.
+Lemma band_lo : band lo hi lo. Proof. split; [apply Qcle_refl|exact Lh]. Qed.
+Lemma band_alo : band alo ahi alo. Proof. split; [apply Qcle_refl|exact Ah]. Qed.
+
+Lemma run_op_lo e a q o cs : band lo hi e -> band alo ahi a -> op_robust lo hi alo ahi q o cs = true ->
+  AL.run_op e a q o cs = AL.run_op lo alo q o cs.
+Proof.
+  intros B C R. destruct o as [t l| |]; cbn [AL.run_op op_robust] in *.
+  - apply (eps_insensitive_refine alo ahi a alo C band_alo). intros new E. rewrite E in R. exact R.
+  - apply (eps_insensitive_uniform alo ahi a alo C band_alo). intros new E. rewrite E in R. exact R.
+  - apply andb_true_iff in R. destruct R as [R1 R2].
+    apply (eps_insensitive_griddify lo hi alo ahi e lo a alo B band_lo C band_alo q cs R1).
+    intros new E. rewrite E in R2. exact R2.
+Qed.
+Lemma fold_none e a q ops :
+  fold_left (fun acc o => match acc with Some cs => AL.run_op e a q o cs | None => None end) ops None = None.
+Proof. induction ops; [reflexivity|exact IHops]. Qed.
+Lemma run_ops_lo e a q ops : band lo hi e -> band alo ahi a -> forall cs,
+  steps_robust lo hi alo ahi q ops cs = true -> AL.run_ops e a q ops cs = AL.run_ops lo alo q ops cs.
+Proof.
+  intros B C. unfold AL.run_ops. induction ops as [|o r IH]; intros cs R; [reflexivity|].
+  cbn [steps_robust] in R. apply andb_true_iff in R. destruct R as [Ro Rr]. cbn [fold_left].
+  rewrite (run_op_lo e a q o cs B C Ro).
+  destruct (AL.run_op lo alo q o cs) as [cs'|]; [apply IH; exact Rr|].
+  rewrite !fold_none. reflexivity.
+Qed.
+
+Theorem eps_insensitive_alloc_run e1 a1 e2 a2 q ops cells :
+  band lo hi e1 -> band lo hi e2 -> band alo ahi a1 -> band alo ahi a2 ->
+  robust_alloc lo hi alo ahi q ops cells = true ->
+  match AL.mk_allocation a1 cells with Some cs => AL.run_ops e1 a1 q ops cs | None => None end =
+  match AL.mk_allocation a2 cells with Some cs => AL.run_ops e2 a2 q ops cs | None => None end.
+Proof.
+  intros B1 B2 C1 C2 R. unfold robust_alloc in R. apply andb_true_iff in R. destruct R as [Rp Rs].
+  rewrite (eps_insensitive_mk_allocation alo ahi a1 alo C1 band_alo cells Rp).
+  rewrite (eps_insensitive_mk_allocation alo ahi a2 alo C2 band_alo cells Rp).
+  destruct (AL.mk_allocation alo cells) as [cs|]; [|reflexivity].
+  rewrite (run_ops_lo e1 a1 q ops B1 C1 cs Rs), (run_ops_lo e2 a2 q ops B2 C2 cs Rs). reflexivity.
+Qed.
+End AllocRun.
